@@ -11,6 +11,7 @@ import (
 	"path/filepath"
 	"sort"
 	"strings"
+	"sync"
 
 	"golang.org/x/tools/go/packages"
 )
@@ -56,6 +57,9 @@ type World struct {
 	guards      map[string]string
 	atomics     map[string]string
 	freshLocals map[types.Object]int
+	localSnap   map[string][]localDef
+	renames     map[string]map[string]string
+	renameMu    sync.Mutex
 	Errors      []string
 }
 
